@@ -82,8 +82,8 @@ def _scanner_progress(ctx):
     bt = A.fn_text(bp)
     ctx.instance("balanced_pair:fails-at-eof")
     loops = [x for x, _ in A.find(bp.block, "Expr::While")]
-    ok = len(loops) == 1 and A.render(loops[0]["cond"]) == "count!=0"
-    fallback_try = "let (tt,c)=c.token_tree()?" in bt
+    ok = len(loops) == 1 and A.wfull(A.render(loops[0]["cond"]), "count!=0") is not None
+    fallback_try = "let (tt,rest)=cur.token_tree()?" in bt
     early = any(A.kind(x) in ("Expr::Break", "Expr::Return") for x, _ in A.walk(loops[0]["body"])) if loops else True
     if not ok or not fallback_try or early:
         ctx.report(
@@ -99,7 +99,21 @@ def _scanner_progress(ctx):
     tu = A.get_fn(ctx.files, PARSING, "take_until1")
     tt = A.fn_text(tu)
     ctx.instance("take_until1:progress")
-    if "if cursor.eof()||until(cursor).is_some(){return parsed.then_some((out,cursor))}" not in tt or "let (stream,c)=parser(cursor)?;out.extend(stream);cursor=c;parsed=true" not in tt:
+    # alias- and order-insensitive: the exit test (aliases inlined) and the *set* of per-iteration steps
+    lp = [x for x, _ in A.find(tu.block, "Expr::Loop")]
+    exit_ok = steps_ok = False
+    if len(lp) == 1:
+        body = lp[0]["body"]["stmts"]
+        als = {}
+        for st_ in body:
+            if A.kind(st_) == "Stmt::Local" and A.kind(st_["pat"]) == "Pat::Ident" and not st_["pat"].get("mutability") and st_.get("init"):
+                als[st_["pat"]["ident"]["sym"]] = (st_["init"]["expr"], st_)
+        rend = [re.sub(r"^if \((.*)\)\{", r"if \1{", A.inline_text(A.render_stmt(x), als)) for x in body if not (A.kind(x) == "Stmt::Local" and any(x is v[1] for v in als.values()))]
+        exit_ok = any(A.wfull(r.rstrip(";"), "if cursor.eof()||until(cursor).is_some(){return parsed.then_some((out,cursor))}") or A.wfull(r.rstrip(";"), "if until(cursor).is_some()||cursor.eof(){return parsed.then_some((out,cursor))}") for r in rend)
+        want = ["let (stream,c)=parser(cursor)?", "out.extend(stream)", "cursor=c", "parsed=true"]
+        got = [r.rstrip(";") for r in rend]
+        steps_ok = all(any(A.wfull(g, w_) for g in got) for w_ in want) and len(got) == len(want) + 1 and got[0].startswith("if ") and got[1].startswith("let (")
+    if not (exit_ok and steps_ok):
         ctx.report("split:take_until1", ctx.where(tu.file, tu.node), "`take_until1` no longer stops at the end / at the delimiter and advances by one parsed item per iteration", {})
     ps_ = A.get_fn(ctx.files, PARSING, "path_sep")
     ctx.instance("path_sep")
